@@ -264,6 +264,7 @@ SumW12(ws) == IF Len(ws) = 0 THEN ZeroW ELSE Add(SumW12(SubSeq(ws, 1, Len(ws) - 
    locals a + i) survives the inlined wrappers, and every trapped instruction received exactly the
    operand it was given *)
 Lo(w, bits) == AndW(w, LowMask(bits))
+WVal12(w) == w[1] % 4096
 CtxOK(e) ==
     LET a == e.args[1]  b == e.args[2]  c == e.args[3]  d == e.args[4]  x == e.args[5]  f == e.args[6]
         ad == AddC(a, b, 0)
@@ -304,7 +305,35 @@ CtxOK(e) ==
                    ss == SelectSeq(ins, LAMBDA i : i.m = "mov_to_sreg") IN
                /\ Len(rs) = 2 /\ rs[1].c = Lo(c, 16) /\ rs[2].c = Lo(c, 16)
                /\ Len(ss) = 1 /\ ss[1].c = Lo(d, 16)
-         [] OTHER -> TRUE                                          \* cr4_write, efer_update, wi, xcr0: the base checks
+         [] e.name = "tlb" ->          \* invlpg c, invlpg d, CR3 reload with the value read, invlpg e twice
+               LET iv == SelectSeq(ins, LAMBDA i : i.m = "invlpg")
+                   cw == SelectSeq(ins, LAMBDA i : i.m = "mov_to_cr")
+                   cr == SelectSeq(ins, LAMBDA i : i.m = "mov_from_cr") IN
+               /\ Len(ins) = 6 /\ M(1) = "invlpg" /\ M(2) = "invlpg" /\ M(3) = "mov_from_cr" /\ M(4) = "mov_to_cr"
+               /\ Len(iv) = 4
+               /\ iv[1].a = SignExt(c) /\ iv[2].a = SignExt(d) /\ iv[3].a = SignExt(x) /\ iv[4].a = SignExt(x)
+               /\ Len(cw) = 1 /\ Len(cr) = 1 /\ cw[1].a = W(3) /\ cr[1].a = W(3)
+               /\ cw[1].c = << 20485, 4660, 0, 0 >>      \* the harness preset CR3 = 0x12345005
+         [] e.name = "invpcid" ->
+               /\ Len(ins) = 5
+               /\ InvpcidOK(0, WVal12(d), SignExt(c), << ins[1] >>)
+               /\ InvpcidOK(1, WVal12(x), ZeroW, << ins[2] >>)
+               /\ InvpcidOK(2, 0, ZeroW, << ins[3] >>)
+               /\ InvpcidOK(3, 0, ZeroW, << ins[4] >>)
+               /\ InvpcidOK(1, WVal12(f), ZeroW, << ins[5] >>)
+         [] e.name = "tables" ->
+               /\ Len(ins) = 5
+               /\ M(1) = "lgdt" /\ ins[1].b = Lo(c, 16) /\ ins[1].c = SignExt(d)
+               /\ M(2) = "lidt" /\ ins[2].b = Lo(x, 16) /\ ins[2].c = SignExt(f)
+               /\ M(3) = "ltr" /\ ins[3].a = Lo(c, 16)
+               /\ M(4) = "lgdt" /\ ins[4].b = ins[2].b /\ ins[4].c = ins[2].c
+               /\ M(5) = "lgdt" /\ ins[5].b = ins[2].b /\ ins[5].c = ins[2].c
+         [] e.name = "segs" ->            \* DS, ES, FS, GS, SS in this order (sreg numbers 3, 0, 4, 5, 2)
+               /\ Len(ins) = 5 /\ \A k \in 1 .. 5 : M(k) = "mov_to_sreg"
+               /\ << ins[1].a, ins[2].a, ins[3].a, ins[4].a, ins[5].a >> = << W(3), W(0), W(4), W(5), W(2) >>
+               /\ << ins[1].c, ins[2].c, ins[3].c, ins[4].c, ins[5].c >>
+                    = << Lo(c, 16), Lo(d, 16), Lo(x, 16), Lo(f, 16), Lo(d, 16) >>
+         [] OTHER -> TRUE      \* cr4_write, efer_update, wi, xcr0, gsbase, mxcsr, rflags: the base checks (and the probe's own assertions)
 
 RECURSIVE SumW(_, _)
 SumW(ws, n) == IF n = 0 THEN ZeroW ELSE Add(SumW(ws, n - 1), ws[n]).v
